@@ -796,9 +796,174 @@ fn check_inner(case: &Case) -> Verdict {
     Verdict::Pass(info)
 }
 
+// ----------------------------------------------------------- multi_file ---
+
+/// Two files searched by one invocation: the output must be the two
+/// single-file outputs (each validated by `check`) put together, with nothing
+/// but the documented separator between them; JSON: begin..end of the first
+/// file, then begin..end of the second.
+#[derive(Clone, Debug, Serialize, Deserialize)]
+pub struct MultiCase {
+    pub base: Case,
+    pub second: Bs,
+}
+
+pub fn gen_multi(t: &mut Tape) -> MultiCase {
+    let mut base = gen_case(t);
+    if base.input.len() > 4000 {
+        let cut = base.input.0[..4000].iter().rposition(|b| *b == b'\n').map_or(4000, |i| i + 1);
+        base.input.0.truncate(cut);
+    }
+    let lines: Vec<&[u8]> = base.input.0.split_inclusive(|b| *b == b'\n').collect();
+    let second = match t.weighted(&[6, 1, 1]) {
+        0 if !lines.is_empty() => {
+            // the same lines, rotated (so both files usually have matches, at different line numbers)
+            let r = t.below(lines.len());
+            let mut v: Vec<u8> = vec![];
+            for l in lines[r..].iter().chain(lines[..r].iter()) {
+                v.extend_from_slice(l);
+                if !l.ends_with(b"\n") {
+                    v.push(b'\n');
+                }
+            }
+            if t.chance(1, 4) && v.ends_with(b"\n") {
+                v.pop();
+            }
+            v
+        }
+        1 => vec![],
+        _ => b"zzz\nzzz\n".to_vec(),
+    };
+    MultiCase { base, second: Bs(second) }
+}
+
+fn strip_json_noise(stdout: &[u8]) -> Result<Vec<Value>, String> {
+    let mut out = vec![];
+    for l in stdout.split(|b| *b == b'\n') {
+        if l.is_empty() {
+            continue;
+        }
+        let mut v: Value = serde_json::from_slice(l).map_err(|e| format!("a line of --json output is not valid JSON: {e}"))?;
+        if v["type"] == "summary" {
+            continue;
+        }
+        if let Some(st) = v["data"]["stats"].as_object_mut() {
+            st.remove("elapsed");
+        }
+        out.push(v);
+    }
+    Ok(out)
+}
+
+pub fn check_multi(mc: &MultiCase) -> Verdict {
+    let case = &mc.base;
+    if gen::starts_with_bom(&case.input.0) || gen::starts_with_bom(&mc.second.0) {
+        return Verdict::Reject("input starts with a byte-order mark (transcoding is C17's subject)");
+    }
+    let dir = TempDir::fast("c09m");
+    dir.write("f", &case.input.0);
+    dir.write("g", &mc.second.0);
+    let mut base_args = args(case);
+    base_args.pop(); // the path
+    let run = |paths: &[&str]| {
+        let rg = Rg::new(&dir.path).args(base_args.iter().cloned()).args(paths.iter().copied());
+        let cmd = rg.cmdline();
+        (rg.run(), cmd)
+    };
+    let (a, _) = run(&["f"]);
+    let (b, _) = run(&["g"]);
+    let (ab, cmd) = run(&["f", "g"]);
+    if a.timed_out || b.timed_out || ab.timed_out {
+        return Verdict::Reject("timeout (inconclusive)");
+    }
+    if a.status == Some(2) || b.status == Some(2) {
+        return Verdict::Reject("rg rejected the arguments");
+    }
+    // Known finding (recorded under C10 as multi-line-only-matching-omits-empty-matches): the
+    // per-match printing path of -U writes no record for an empty match or one made of line
+    // terminators only, although the sink has counted the match - so a file can "have output"
+    // (separator before the next file, context lines) without any match record.
+    let empty_ml_match = case.mode == Mode::Vimgrep && case.multiline && {
+        let pc = pat_cfg(case);
+        pc.build().ok().map_or(false, |m| {
+            [&case.input.0, &mc.second.0].iter().any(|inp| {
+                super::c13::enumerate_matches(&m, inp, false).iter().any(|(s, e)| inp[*s..*e].iter().all(|b| *b == b'\n' || *b == b'\r'))
+            })
+        })
+    };
+    let fail = |msg: String| {
+        let f = Fail::new(format!(
+            "{msg}\n cmd: {cmd}\n f ({} bytes): {:?}\n g ({} bytes): {:?}\n stdout for f alone: {:?}\n stdout for g alone: {:?}\n stdout for f g: {:?}\n stderr: {:?}",
+            case.input.len(),
+            Bs(case.input.0[..case.input.len().min(400)].to_vec()),
+            mc.second.len(),
+            Bs(mc.second.0[..mc.second.len().min(400)].to_vec()),
+            Bs(a.stdout[..a.stdout.len().min(600)].to_vec()),
+            Bs(b.stdout[..b.stdout.len().min(600)].to_vec()),
+            Bs(ab.stdout[..ab.stdout.len().min(1200)].to_vec()),
+            Bs(ab.stderr.clone())
+        ));
+        if empty_ml_match {
+            f.fact("multi-line-per-match-output-has-no-record-for-an-empty-or-terminator-only-match")
+        } else {
+            f
+        }
+    };
+    let want_status = if a.status == Some(0) || b.status == Some(0) { Some(0) } else { Some(1) };
+    if ab.status != want_status {
+        return Verdict::Fail(fail(format!("exit status {:?} for both files, {:?} and {:?} for each alone", ab.status, a.status, b.status)));
+    }
+    let both = !a.stdout.is_empty() && !b.stdout.is_empty();
+    if case.mode == Mode::Json {
+        let (ja, jb, jab) = match (strip_json_noise(&a.stdout), strip_json_noise(&b.stdout), strip_json_noise(&ab.stdout)) {
+            (Ok(x), Ok(y), Ok(z)) => (x, y, z),
+            (Err(e), _, _) | (_, Err(e), _) | (_, _, Err(e)) => return Verdict::Fail(fail(e)),
+        };
+        let mut want = ja.clone();
+        want.extend(jb.iter().cloned());
+        if want != jab {
+            return Verdict::Fail(fail("--json for two files is not the first file's begin..end followed by the second file's (elapsed times and the summary left out)".into()));
+        }
+    } else {
+        let heading = case.mode == Mode::Standard && case.with_filename && case.heading;
+        let seps: Vec<&[u8]> = if !both {
+            vec![b""]
+        } else if heading {
+            if case.crlf { vec![b"\n", b"\r\n"] } else { vec![b"\n"] }
+        } else if case.after + case.before > 0 {
+            if case.crlf { vec![b"--\n", b"--\r\n"] } else { vec![b"--\n"] }
+        } else {
+            vec![b""]
+        };
+        let ok = seps.iter().any(|s| {
+            ab.stdout.len() == a.stdout.len() + s.len() + b.stdout.len()
+                && ab.stdout.starts_with(&a.stdout)
+                && ab.stdout[a.stdout.len()..].starts_with(s)
+                && ab.stdout.ends_with(&b.stdout)
+        });
+        if !ok {
+            return Verdict::Fail(fail(format!(
+                "the output for two files is not the two single-file outputs joined by {}",
+                if !both { "nothing (one of them is empty)" } else if heading { "one empty line (--heading)" } else if case.after + case.before > 0 { "one context separator" } else { "nothing" }
+            )));
+        }
+    }
+    let mut info = Info::new(both);
+    info.class_if(both, "both_files_have_output");
+    info.class_if(!a.stdout.is_empty() != !b.stdout.is_empty(), "one_file_without_output");
+    info.class(match case.mode {
+        Mode::Standard => "mode_standard",
+        Mode::Vimgrep => "mode_vimgrep",
+        Mode::Json => "mode_json",
+    });
+    info.class_if(case.mode == Mode::Standard && case.with_filename && case.heading && both, "heading_blank_line_between_files");
+    info.class_if(case.mode != Mode::Json && !(case.mode == Mode::Standard && case.with_filename && case.heading) && case.after + case.before > 0 && both, "context_separator_between_files");
+    Verdict::Pass(info)
+}
+
 pub fn run(pc: &PropCtx) {
     pc.rule(
-        "generated (pattern, input with invalid UTF-8 / multi-byte characters / very long lines / CRLF / missing final newline, flag set from -n -b --column --vimgrep -H/-I --heading --null -A -B --json -U --crlf -v -i, mmap on/off); the real binary's stdout is parsed by a grammar derived from the flags; every record's body must be byte-for-byte a line of the file, its line number / byte offset that line's own, its column 1 + the start of the first match (per-line regex oracle; all matches for --vimgrep), separators exactly between non-adjacent printed lines; JSON: decoded lines == file bytes at absolute_offset, submatch text == lines[start..end], submatches == the successive matches, text vs base64 chosen by UTF-8 validity (both directions), begin (match|context)* end in order. Non-trivial = at least one match and one context record and a non-ASCII input; distinct by hash",
+        "generated (pattern, input with invalid UTF-8 / multi-byte characters / very long lines / CRLF / missing final newline, flag set from -n -b --column --vimgrep -H/-I --heading --null -A -B --json -U --crlf -v -i, mmap on/off); the real binary's stdout is parsed by a grammar derived from the flags; every record's body must be byte-for-byte a line of the file, its line number / byte offset that line's own, its column 1 + the start of the first match (per-line regex oracle; all matches for --vimgrep), separators exactly between non-adjacent printed lines; JSON: decoded lines == file bytes at absolute_offset, submatch text == lines[start..end], submatches == the successive matches, text vs base64 chosen by UTF-8 validity (both directions), begin (match|context)* end in order. multi_file: the same flag sets with two files (the second a rotation of the first, empty, or without matches) given to one invocation: stdout must be the two single-file outputs joined by nothing, by one context separator (context flags, no heading) or by one empty line (--heading), JSON the first file's begin..end followed by the second's, exit status 0 iff one of them has 0. Non-trivial = at least one match and one context record and a non-ASCII input; distinct by hash",
     );
     pc.assume("which lines are selected is C01/C03's subject; here the per-line oracle is only used for columns and submatches");
     pc.assume("under -U the column is asserted only for the first line of a block; the trailing-empty-match shape recorded as a known finding under C10 is skipped and counted");
@@ -808,9 +973,17 @@ pub fn run(pc: &PropCtx) {
     pc.require_class("records:column_checked", cases as u64 / 40);
     pc.require_class("records:submatches_checked", cases as u64 / 40);
     pc.require_class("records:json_with_invalid_utf8_input", cases as u64 / 100);
+    let multi = pc.tier.pick(3_000, 40_000);
+    pc.run_tape("multi_file", multi, (128, 1500), gen_multi, check_multi);
+    pc.require_class("multi_file:heading_blank_line_between_files", multi as u64 / 100);
+    pc.require_class("multi_file:context_separator_between_files", multi as u64 / 50);
 }
 
-pub fn replay(_pc: &PropCtx, _sub: &str, case: &serde_json::Value) -> Result<Verdict, String> {
+pub fn replay(_pc: &PropCtx, sub: &str, case: &serde_json::Value) -> Result<Verdict, String> {
+    if sub == "multi_file" {
+        let c: MultiCase = serde_json::from_value(case.clone()).map_err(|e| e.to_string())?;
+        return Ok(check_multi(&c));
+    }
     let c: Case = serde_json::from_value(case.clone()).map_err(|e| e.to_string())?;
     Ok(check(&c))
 }
